@@ -1,5 +1,5 @@
 #!/usr/bin/env python3
-"""C17 -- page labels, outlines and named destinations follow their tree definitions (DESIGN.md 3.C17)."""
+"""C17 -- page labels, outlines and named destinations follow their tree definitions (DESIGN.md section 4, C17)."""
 import io
 import os
 import sys
@@ -42,7 +42,7 @@ MANIFEST_ENTRY = {
             "from ISO (known finding, pinned by the test suite).",
     "note": "Trusted: Coq kernel, translator for the tables, hand models tied by differential runs on generated PDFs, harness "
             "PDF writer. Recursion limit (long Next chains, cyclic outlines) is outside the model (C13).",
-    "design_ref": "DESIGN.md 3.C17",
+    "design_ref": "DESIGN.md section 4, C17",
 }
 
 STYLES = {"D": "SD", "R": "SR", "r": "Sr", "A": "SA", "a": "Sa", None: "SNone", "X": "SOther"}
